@@ -148,6 +148,10 @@ class NumPathsOptimization(pathmodel.AbstractPathModelDAG): # Note that we inher
             
         """
         
+        # A new run starts: what an earlier run on this object proved does not count for this one
+        self._is_solved = False
+        self._solution = None
+
         self.solve_time_start = time.perf_counter()
         previous_solution_objective_value = None
         solve_status = None
